@@ -33,6 +33,17 @@ def gen(chk, tier):
             else:
                 kw["id"], kw["msg"] = rb(rng, rng.choice([0, 16, 53, 54, 117])), rb(rng, rng.choice([0, 14, 23, 24, 87, 88]))
             g.one("pair_" + kind, "sm2.signverify", **kw)
+    # word-structured keys and nonces (limbs with zero halves, carry chains: low limbs all ones, ...), full width and
+    # as the short encodings the signer accepts (e.g. sixteen 0xFF bytes)
+    from ..sm2gen import limb_structured
+    st = [v % (N - 2) + 1 for v in limb_structured(rng, 30 if q else 600)]
+    st += [(1 << (8 * L)) - 1 for L in (8, 16, 24, 31)] + [((1 << 128) - 1) | (rng.getrandbits(100) << 150), (1 << 64) - 1,
+                                                            ((1 << 192) - 1) | (rng.getrandbits(30) << 200)]
+    for d in st:
+        enc = b32(d) if rng.random() < 0.6 or d >= 1 << 248 else list(d.to_bytes(max(1, (d.bit_length() + 7) // 8), "big"))
+        kk = rng.choice(st) if rng.random() < 0.3 else rscalar(rng)
+        g.one("structured_key", "sm2.signverify", kind="hashed", priv=enc, e=rb(rng, 32),
+              script=sm2gen.script_of([kk, rscalar(rng)]))
     for L in (1, 8, 31):
         v = rng.getrandbits(8 * L) | 1
         g.one("short_key", "sm2.signverify", kind="hashed", priv=list(v.to_bytes(L, "big")), e=rb(rng, 32),
